@@ -53,7 +53,7 @@ ImplAct(s) ==
 SameCall(a, b) == a.c = b.c /\ a.cid = b.cid /\ (a.c \in {"dial", "open"} => ToSet(a.addrs) = ToSet(b.addrs))
 SameEvent(a, b) == /\ a.k = b.k /\ a.cid = b.cid
                    /\ (a.k \in {"dial_failure", "open_failure"} => ToSet(a.addrs) = ToSet(b.addrs))
-                   /\ (a.k \in {"est", "closed"} => a.peer = b.peer)
+                   /\ (a.k \in {"est", "closed", "proto_dial_failure"} => a.peer = b.peer)
 
 TStepImpl ==
   LET r == Rec[l] IN
